@@ -181,7 +181,8 @@ def build_hist(backend, extra=False, flags=False):
     more.append(h_o)
     compile_many(jobs, cacheable)
     exe = os.path.join(d, "hist")
-    wraps = list(HIST_WRAPS) + (["idn2_to_ascii_8z"] if backend == "idn2" else [])
+    wraps = list(HIST_WRAPS) + (["idn2_to_ascii_8z", "idn2_to_ascii_lz", "idn2_lookup_u8", "idn2_lookup_ul",
+                                 "idn2_to_unicode_8z8z", "idn2_to_unicode_8zlz", "idn2_to_unicode_lzlz"] if backend == "idn2" else [])
     run([CXX, "-fsanitize=address,undefined", "-o", exe] + more + objs + ["-lidn2"]
         + ["-Wl," + ",".join("--wrap=" + w for w in wraps)])
     return exe, ext
@@ -252,7 +253,8 @@ SCHED_WRAPS = ["malloc", "free", "calloc", "realloc", "strdup", "strndup", "strl
 
 # externals of the library objects that the C14 runtime models (anything else is reported as unmodelled)
 SCHED_MODELLED = set(SCHED_WRAPS) | {"__ctype_b_loc", "__ctype_tolower_loc", "__ctype_toupper_loc", "idn2_strerror", "__errno_location",
-                                       "idna_to_ascii_lz", "idna_strerror"}
+                                       "idna_to_ascii_lz", "idna_strerror", "idn_res_encodename", "idn_resconf_create", "idn_resconf_destroy",
+                                       "idn_resconf_initialize", "idn_result_tostring"}
 HIDDEN_STATE = {"strtok", "strerror", "rand", "srand", "setlocale", "localtime", "gmtime", "asctime", "ctime", "hsearch", "hcreate", "hdestroy",
                 "getpwnam", "getpwuid", "gethostbyname", "readdir", "ttyname", "tmpnam", "drand48", "lrand48", "random", "srandom", "ecvt", "fcvt", "getenv", "setenv", "putenv"}
 
@@ -275,9 +277,9 @@ def build_sched(variant="", defs=(), backend="idn2"):
     jobs = [[CXX, "-std=c++17", "-Wall"] + plain + ["-c", os.path.join(sim, "sched/rt.cpp"), "-o", rt_o],
             [CXX, "-std=c++17", "-Wall"] + plain + inc + ["-c", os.path.join(sim, "sched/sched_sim.cpp"), "-o", sm_o]]
     more = []
-    if backend == "idn":        # the libidn stand-in (uninstrumented, like the real library would be) over the same converter
+    if backend != "idn2":       # the libidn / idnkit stand-in (uninstrumented, like the real library would be) over the same converter
         ad_o = os.path.join(d, "adapter.o"); cv_o = os.path.join(d, "conv_shim.o")
-        jobs.append([CC, "-std=gnu99", "-Wall"] + plain + ["-I" + os.path.join(sim, "adapters")] + ["-c", os.path.join(sim, "adapters/adapter_idn.c"), "-o", ad_o])
+        jobs.append([CC, "-std=gnu99", "-Wall"] + plain + ["-I" + os.path.join(sim, "adapters")] + ["-c", os.path.join(sim, "adapters/adapter_%s.c" % backend), "-o", ad_o])
         jobs.append([CC, "-std=gnu99", "-Wall"] + plain + ["-c", os.path.join(sim, "sched/conv_shim.c"), "-o", cv_o])
         more = [ad_o, cv_o]
     compile_many(jobs, {0})
